@@ -17,3 +17,4 @@ open GoDcp GoDcp.Obs.C03 GoDcp.C03
 #print axioms deliveries_own
 #print axioms vbuckets_independent
 #print axioms vbuckets_independent'
+#print axioms deliveries_own_reopen_refuted
